@@ -71,7 +71,7 @@
  "name": "undo_zeroout_big",
  "props": ["C12"],
  "level": "P",
- "tier": "wip",
+ "tier": "obs",
  "harness": "h_zeroout_big",
  "enforce": ["undo_zeroout"],
  "replace": ["undo_write_tdb"],
